@@ -117,7 +117,29 @@ Theorem C17_cached_path_exact :
 Proof. intros e n l H. exact (calls_exact e n l None H (tinv_none e n)). Qed.
 Print Assumptions C17_cached_path_exact.
 
+(* nested masked-parameter blocks: the inner mask is the outer one updated with the inner values
+   (Python dict update; since the C16 repair of VarsManager.mask_params), a tied name masks all
+   names of its variable; every exit puts the mask of its own entry back *)
+Example C17_nested_masks_merge :
+  let p := PWith (BMaskParams [(0, (3, 4))]) (PSeq PEval (PSeq (PWith (BMaskParams [(1, (5, 8))]) PEval) PEval)) in
+  map maskv (rev (snd (fst (run ex_env never p (O, []) ex_state)))) = [[(0, (3, 4))]; [(0, (3, 4)); (1, (5, 8))]; [(0, (3, 4))]]
+  /\ st_of (snd (run ex_env never p (O, []) ex_state)) = ex_state.
+Proof. exact nested_mask_example. Qed.
+Example C17_mask_merge_order :
+  mask_merge ex_env [(1, (5, 8)); (0, (7, 8))] [(0, (3, 4)); (3, (1, 2))] = [(0, (7, 8)); (3, (1, 2)); (1, (5, 8))].
+Proof. exact mask_merge_example. Qed.
+Example C17_mask_merge_tied :
+  mask_merge (mkEnv 3 [] [] [(1, [1; 3]); (3, [1; 3])]) [(3, (5, 8))] [(0, (3, 4))] = [(0, (3, 4)); (3, (5, 8)); (1, (5, 8))].
+Proof. exact mask_merge_tied_example. Qed.
+
 (* ---- why the repairs matter: the pre-fix control flow (separate "old" model) ---- *)
+(* before the C16 repair the inner dictionary replaced the outer mask inside the inner block *)
+Example C17_old_nested_mask_replaced :
+  map maskv (rev (snd (fst (with_block (old_mask_enter [(0, (3, 4))]) (blk_exit ex_env (BMaskParams []))
+                              (with_block (old_mask_enter [(1, (5, 8))]) (blk_exit ex_env (BMaskParams [])) (tick never))
+                              (O, []) ex_state))))
+  = [[(1, (5, 8))]].
+Proof. exact old_nested_mask_replaced. Qed.
 (* finding C17-1: cached_available() tested only not_full *)
 Theorem C17_old_cached_path_refuted :
   exists e n l, List.Forall (fun s => nf_consistent e s /\ length (mflags s) = n) l /\
